@@ -317,7 +317,7 @@ func runCase(c caseT) (viol []string, held bool) {
 					return nil
 				}
 			}
-			handles = append(handles, router.AddHandler(name, topic, sub, "out", pubs[i], handler(true)))
+			handles = append(handles, router.AddHandler(name, topic, sub, []string{"out", ""}[(i+len(c.Noise))%2], pubs[i], handler(true)))
 		} else {
 			h := handler(false)
 			handles = append(handles, router.AddNoPublisherHandler(name, topic, sub, func(m *message.Message) error { _, err := h(m); return err }))
@@ -703,5 +703,64 @@ func TestCloseBeforeRun(t *testing.T) {
 		}
 		lib.Case(fmt.Sprintf("close-before-run|%d|%d|closeErr=%v", n, backlog, closeErr != nil), true, "point:before-run", fmt.Sprintf("close-returned-error=%v", closeErr != nil))
 		lib.Sample(map[string]any{"test": "CloseBeforeRun", "handlers": n, "close_returned_error": closeErr != nil, "invocations_after_close": started.Load()})
+	})
+}
+
+// ---------- Close after a start-up that failed ----------
+
+// Run may fail while it starts (a Subscribe that fails, a plugin that reports an error): Run returns the error, and Close -
+// the natural reaction - returns like any other Close call, for every caller, however far the start-up had come.
+func TestCloseAfterFailedStartup(t *testing.T) {
+	rapid.Check(t, func(t *rapid.T) {
+		n := rapid.IntRange(1, 3).Draw(t, "handlers")
+		failing := rapid.IntRange(0, n-1).Draw(t, "handlerWhoseSubscribeFails")
+		viaPlugin := rapid.IntRange(0, 2).Draw(t, "startUpFailsInAPlugin") == 0
+		callers := rapid.IntRange(1, 3).Draw(t, "closeCallers")
+		router, err := message.NewRouter(message.RouterConfig{CloseTimeout: 50 * time.Millisecond}, watermill.NopLogger{})
+		if err != nil {
+			t.Fatalf("NewRouter: %v", err)
+		}
+		for i := 0; i < n; i++ {
+			s := lib.NewScriptSub("")
+			if i == failing && !viaPlugin {
+				s.SubscribeErr = func(int, string) error { return fmt.Errorf("broker not reachable") }
+			}
+			router.AddNoPublisherHandler(fmt.Sprintf("h%d", i), "t", s, func(*message.Message) error { return nil })
+		}
+		if viaPlugin {
+			router.AddPlugin(func(*message.Router) error { return fmt.Errorf("plugin cannot start") })
+		}
+		runRet := make(chan error, 1)
+		go func() { runRet <- router.Run(context.Background()) }()
+		select {
+		case err := <-runRet:
+			if err == nil {
+				t.Fatalf("harness: Run returned nil although its start-up was made to fail")
+			}
+		case <-time.After(lib.Live):
+			t.Fatalf("harness: Run did not return its start-up error within %v", lib.Live)
+		}
+		rets := make(chan error, callers)
+		for c := 0; c < callers; c++ {
+			go func() { rets <- router.Close() }()
+		}
+		for c := 0; c < callers; c++ {
+			select {
+			case <-rets:
+			case <-time.After(lib.Live):
+				t.Fatalf("violation: Close() after a failed start-up (%d handlers, failing: %s) did not return within %v for %d of %d callers (CloseTimeout 50ms)",
+					n, map[bool]string{true: "plugin", false: fmt.Sprintf("Subscribe of handler %d", failing)}[viaPlugin], lib.Live, callers-c, callers)
+			}
+		}
+		// and once more, afterwards
+		again := make(chan error, 1)
+		go func() { again <- router.Close() }()
+		select {
+		case <-again:
+		case <-time.After(lib.Live):
+			t.Fatalf("violation: a repeated Close() after a failed start-up did not return within %v", lib.Live)
+		}
+		lib.Case(fmt.Sprintf("close-after-failed-startup|%d|%d|%v|%d", n, failing, viaPlugin, callers), true, "point:failed-startup")
+		lib.Sample(map[string]any{"test": "CloseAfterFailedStartup", "handlers": n, "failing_handler": failing, "via_plugin": viaPlugin, "close_callers": callers})
 	})
 }
